@@ -75,6 +75,14 @@ class Exec:
                 if any(c.pool and np.isnan(means.get(c.tally_pool, 0.0)) for c in cvrs):
                     out.skip("audit-not-started(nan-pool-mean)")
                     return
+        if init.get("unbounded"):
+            # the tests are configured for sampling with replacement (population size infinite), which is conservative for
+            # the cards actually drawn; Kaplan-Kolmogorov needs a finite population and keeps it
+            for con in contests.values():
+                for a in con.assertions.values():
+                    if a.test.test.__name__ != "kaplan_kolmogorov":
+                        a.test.N = np.inf
+            out.cls("tests-for-sampling-with-replacement")
         if init.get("rehearsal"):
             # a dress rehearsal on the same list of records under other (test) numbers, before the real numbers exist
             from shangrla.core.Audit import CVR
@@ -232,7 +240,7 @@ def _init_strategy():
         base = draw(st.sampled_from([0, 0, 0, 2 ** 64, 2 ** 200, 2 ** 255 + 2 ** 254]))
         nums = [base + v for v in nums]
         rehearsal = [int(v) for v in draw(st.permutations(list(range(1, n + 1))))] if draw(st.integers(0, 3)) == 0 else None
-        return {"scn": scn, "sample_nums": nums, "rehearsal": rehearsal}
+        return {"scn": scn, "sample_nums": nums, "rehearsal": rehearsal, "unbounded": draw(st.integers(0, 3)) == 0}
 
     return init()
 
